@@ -78,6 +78,7 @@ TD15_QUICK = [('tdigest.rs', 'c15_td_endpoints_1', 'bounded(1 centroid; weights 
               ('tdigest.rs', 'c15_td_concrete_weighted_grid_q', 'bounded(ONE concrete 3-centroid digest with unequal outer weights; q on j/104): range, monotonicity, cdf(quantile(q)) = q in both tails'),
               ('tdigest.rs', 'c15_td_merge_three_concrete_sorted', 'bounded(ONE concrete merge: centroid 5, backlog 6, 1; non-fusing scale function): three entries come out sorted'),
               ('tdigest.rs', 'c15_td_merge_three_grid_sorted', 'bounded(1 centroid + 2 backlog values on an integer grid; non-fusing scale function): sorted, sum kept'),
+              ('tdigest.rs', 'c15_td_interpolate_wide_knots', 'bounded(knots -i*2^1021 / j*2^1021, i, j in 0..=7, t on k/8; exact arithmetic): interpolation between knots further apart than f64::MAX stays finite and inside [a, b]'),
               ('tdigest.rs', 'c15_td_first_read_tails', 'bounded(one concrete insert still in the backlog): cdf tails / quantile end points / repeated reads as FIRST read through the public wrapper')]
 TD15_THOROUGH = [('tdigest.rs', 'c15_td_endpoints_3', 'bounded(3 centroids)'),
                  ('tdigest.rs', 'c16_td_merge_three_any_schedule', 'bounded(three entries, every fuse schedule): merge leaves means sorted'),
@@ -152,12 +153,12 @@ PROPS['C09'] = {
 
 PROPS['C10'] = {
     'level': 'proof',
-    'verus_units': ['cmsheap'],
+    'verus_units': ['cmsheap', 'cms', 'hashiter'],
     'kani': {'quick': [], 'thorough': []},
     'explanation': 'Verus proof on the real CMSHeap::add/new/clear/is_empty (unbounded in k, stream and sketch behaviour): add never panics (unwrap on the minimum, counter arithmetic, no assertion); the exact-count map and the ordered tree hold the same (count, element) pairs, at most k; exactly min(k, number of distinct elements seen) elements are held, all of which were added; and the ranking invariant (members carry a count in [true, true + E]; while there is room every seen element is a member; once full no outsider has a true count above any member\'s stored count) is preserved, from which lemma_ranking derives C10 as stated: a seen element x is missing only if all k members have true counts >= count(x) - E.',
     'trusted_base': COMMON_TRUST + ['vstd HashMap<Rc<T>, usize> / entry-API specifications (obeys_key_model::<Rc<T>>() assumed)',
                                     'BTreeSet<TreeEntry<T>> replaced by a contract-only stub EntrySet<T> (set of (n, obj) pairs ordered by TreeEntry\'s Ord; iter().next() is a minimum by n) -- TreeEntry\'s hand-written PartialEq (obj only) and Ord ((n, obj)) are inconsistent, which vstd\'s BTreeSet model cannot express',
-                                    'CountMinSketch<T> replaced by a stub with ghost true counts tc and a stream constant E = max_err(): add(x) returns an estimate in [tc(x), tc(x)+E] -- the lower bound is C02, the upper bound is the DEFINITION of E in C10'],
+                                    'CountMinSketch<T> replaced by a stub with ghost true counts tc and a stream constant E = max_err(): add(x) returns an estimate in [tc(x), tc(x)+E] -- the lower bound is C02, the upper bound is the DEFINITION of E in C10; that the real CountMinSketch::add returns exactly the row minimum of the updated counters (== query_point afterwards) is proved in unit cms, which this check runs too (seed C10-7)'],
     'assumptions': ['stored exact counters stay below usize::MAX', 'Kani cannot execute std HashMap/BTreeSet: violations carry no-failing-input-found', 'the heap is created with a fresh (all-zero) sketch'],
     'not_decided': ['iter() (impl Iterator over the tree, cloning the elements) is not under contract'],
 }
@@ -267,15 +268,16 @@ PROPS['C19'] = {
     'verus_units': ['bloom', 'cuckoo', 'quotient', 'quotient_exact', 'cms', 'hll', 'reservoir', 'lossy', 'cmsheap', 'tdigest'],
     'kani': {'quick': TD19 + CMS_EMPTY + CMS_MERGE[:1] + HLL_MERGE + BLOOM_K[1:] + [('reservoirsampling.rs', 'c19_reservoir_clone_mid_fillup', 'bounded(k=4, one concrete history): clone during fill-up')] + [('filters__quotientfilter.rs', 'c19_qf_clear_is_fresh', 'bounded(4 slots, 16-bit remainders; arbitrary array contents)'),
                                                                   ('filters__cuckoofilter.rs', 'c19_cuckoo_clear_is_fresh', 'bounded(2x2 table)'),
+                                                                  ('filters__cuckoofilter.rs', 'c19_cuckoo_clone_independent', 'bounded(2x2 table, arbitrary contents): clone independence'),
                                                                   ('filters__bloomfilter.rs', 'c19_bloom_clone_independent', 'bounded(m=7, arbitrary bits): clone independence'),
                                                                   ('countminsketch.rs', 'c19_cms_clone_independent', 'bounded(2x2 u8 table, arbitrary contents): clone independence'),
                                                                   ('hyperloglog__mod.rs', 'c19_hll_clone_independent', 'bounded(b=4, arbitrary registers): clone independence'),
                                                                   ('tdigest.rs', 'c19_td_clone_independent', 'bounded(one concrete insert on either side): clone independence through the RefCell')],
              'thorough': [('filters__quotientfilter.rs', 'c19_qf_clone_independent', 'bounded(2 slots, every canonical state): clone independence')]},
-    'explanation': 'clear() contracts: every field that later behaviour reads equals the fresh value (hidden counters included) -- Verus for Bloom, Cuckoo, Quotient, CMS, HLL, Reservoir, LossyCounter, CMSHeap and TDigestInner (unbounded: all nine structures; TDigest: centroids and backlog empty, n_samples == 0, min/max the same two constants new() stores, configuration kept; is_empty exact incl. pending inserts); Kani for TDigest additionally through the public RefCell wrapper (bounded, f64). is_empty exactness likewise. Equal states + deterministic code => equal continuations. clone(): bounded Kani harnesses (clone, mutate one side, the other keeps its state) for Bloom, CMS, HLL, TDigest, Reservoir (quick) and QuotientFilter (thorough).',
+    'explanation': 'clear() contracts: every field that later behaviour reads equals the fresh value (hidden counters included) -- Verus for Bloom, Cuckoo, Quotient, CMS, HLL, Reservoir, LossyCounter, CMSHeap and TDigestInner (unbounded: all nine structures; TDigest: centroids and backlog empty, n_samples == 0, min/max the same two constants new() stores, configuration kept; is_empty exact incl. pending inserts); Kani for TDigest additionally through the public RefCell wrapper (bounded, f64). is_empty exactness likewise. Equal states + deterministic code => equal continuations. clone(): bounded Kani harnesses (clone, mutate one side, the other keeps its state) for Bloom, Cuckoo, CMS, HLL, TDigest, Reservoir (quick) and QuotientFilter (thorough).',
     'trusted_base': COMMON_TRUST + [INTVEC_TRUST, FBS_TRUST, 'unit tdigest: TDigestInner::merge() is an ASSUMED contract (backlog drained; n_samples, max_backlog_size, scale_function untouched; never more centroids than entries; non-empty input => non-empty output; empty backlog => no-op) -- iterator chains, sort_by and f64 are outside Verus; every clause is cross-checked on the real merge by the bounded Kani harnesses c16_td_merge_1_1 / c15_td_merge_empty_backlog_noop', 'unit tdigest R12: the float expressions `x * w`, `self.min.min(x)`, `self.max.max(x)` become contract-free stubs (arbitrary results), f64::INFINITY / NEG_INFINITY become opaque constants (only "clear() stores the same two values as new()" is used)'],
     'assumptions': ['clone(): all nine types are derive(Clone) over owned data (Rc<T> in CMSHeap is shared but T is never mutated); std Clone contracts assumed, not verified'],
-    'not_decided': ['clone() independence beyond the bounded harnesses (derive(Clone) has no source text to put under a Verus contract); not exercised for Cuckoo, LossyCounter, CMSHeap'],
+    'not_decided': ['clone() independence beyond the bounded harnesses (derive(Clone) has no source text to put under a Verus contract); not exercised for LossyCounter, CMSHeap (std HashMap is out of reach for Kani)'],
 }
 
 PROPS['C20'] = {
